@@ -53,6 +53,29 @@ def forward_case(M, shape, prefix):
     return goals
 
 
+def reuse_case(M, n, prefix, which):
+    """the same wavelength buffer re-used after being refilled in place: the second conversion follows the law for the NEW wavelengths"""
+    from dreye.api.units.convert import irr2flux, flux2irr
+    f = irr2flux if which == "irr2flux" else flux2irr
+    I = M.real("I", (n,))
+    lam = _lam(M, (n,))
+    shift = M.real("shift", (n,), sample=lambda r, s: r.uniform(20.0, 200.0, size=s))
+    for v in np.asarray(shift):
+        M.assume(v >= 1); M.assume(v <= 500)
+    first = np.asarray(f(I, lam, prefix=prefix))
+    lam_arr = lam if isinstance(lam, np.ndarray) else np.asarray(lam)
+    new = [lam_arr[k] + np.asarray(shift)[k] for k in range(n)]
+    for k in range(n):
+        lam_arr[k] = new[k]  # the caller refills its own buffer
+    M.snaps["lam"] = np.array(lam_arr, copy=True).view(np.ndarray)
+    second = np.asarray(f(I, lam_arr, prefix=prefix))
+    M.observe("second", second)
+    k_ = _k(prefix) if which == "irr2flux" else fractions.Fraction(10 ** PREFIX[prefix]) / _k("")
+    spec = np.asarray(I) * np.asarray(new, dtype=object if M.symbolic else float) * _c(M, k_) if which == "irr2flux" else np.asarray(I) * _c(M, k_) / np.asarray(new, dtype=object if M.symbolic else float)
+    return {"shape": first.shape == (n,) and second.shape == (n,),
+            f"{which} after the wavelength buffer was refilled in place follows the law for the new wavelengths (rel 1e-12)": second.shape == (n,) and M.close(second, spec)}
+
+
 def linear_case(M, n, prefix, which):
     from dreye.api.units.convert import irr2flux, flux2irr
     f = irr2flux if which == "irr2flux" else flux2irr
@@ -122,6 +145,9 @@ def cases(tier, seed):
                 shapes_axes += [((3, 2, 2), 0), ((3, 1, 2), 0), ((3, 2, 1), -3), ((2, 3, 2), -2), ((2, 3, 2, 2), 1)]
             for shape, axis in shapes_axes:
                 add(f"axis {which} shape={shape} axis={axis} prefix={prefix!r}", "axis_case", shape=shape, axis=axis, prefix=prefix, which=which)
+    for which in ("irr2flux", "flux2irr"):
+        for prefix in ("", "micro"):
+            add(f"re-used wavelength buffer {which} prefix={prefix!r}", "reuse_case", n=3, prefix=prefix, which=which)
     for prefix in ("", "micro"):
         for in_unit in ("I", "microI", "W/m^2/nm", "uW/cm^2/nm"):
             for lam_unit in ("plain", "nm", "um"):
